@@ -1,5 +1,5 @@
 SPECIFICATION Spec
-INVARIANT RouteAllowed KindRespected TableSorted NeverFatal Emit
+INVARIANT RouteAllowed KindRespected TableSorted SendNeverFails Emit
 CHECK_DEADLOCK FALSE
 CONSTANTS
   NBits = 4
